@@ -45,6 +45,14 @@ QueryA(op, args, ret) == StepA(op, args, ret, FALSE, a, al)                     
 (* (trace validation): first/last matches use SelectInSeq/SelectLastInSeq.                      *)
 
 MinI(x, y) == IF x < y THEN x ELSE y
+\* Extreme numeric arguments.  The interface takes 64-bit indices / counts / lengths (INT64_MAX, INT64_MIN, 2^32+k, 1<<62 ...);
+\* TLC integers are 32-bit.  Every rule below reads such an argument only through comparisons with quantities of the size of
+\* a buffer (and sums of them), so every value >= Huge is treated exactly like Huge and every value <= -Huge exactly like
+\* -Huge ("+Huge = beyond any length, -Huge = before any length counted from the end").  A recorded event carries the
+\* argument clipped to -Huge..Huge (and the real 64-bit value as an uninterpreted text); HugeLaw states the uniform treatment
+\* as a law of the reference.  Buffers are far shorter than Huge (ASSUME below).
+Huge == 1073741824                                                 \* 2^30
+ASSUME MaxLenA < Huge \div 4 /\ MaxLenB < Huge \div 4
 Norm(n, i) == IF i < 0 THEN i + n ELSE i                          \* S: a negative index counts from the end
 Take(s, n) == SubSeq(s, 1, MinI(n, Len(s)))                       \* first n bytes (all of s if shorter), n >= 0
 RevSeq(s)  == [k \in 1 .. Len(s) |-> s[Len(s) + 1 - k]]
@@ -376,6 +384,22 @@ SubLaw ==
         /\ r.ok => /\ Len(r.s) <= Len(a) - k
                    /\ r.s = SubSeq(a, k + 1, k + Len(r.s))
                    /\ (c > 0) => Len(r.s) = MinI(c, Len(a) - k)
+\* S: extreme arguments - a position beyond either end is refused, a count beyond the end is "everything from here on" for
+\* subbuff (C: clamped) and refused for splice, a count of -Huge is refused; Huge is not special: any count >= the length
+\* gives the same answer (so a 64-bit value such as INT64_MAX must behave like len+1)
+HugeLaw ==
+    /\ \A c \in Cnt \cup {Huge, 0 - Huge} :
+          /\ ~SubRef(a, Huge, c).ok /\ ~SubRef(a, 0 - Huge, c).ok
+          /\ \A t \in Texts : /\ SpliceRef(a, Huge, c, t) = [ok |-> FALSE, s |-> a, def |-> TRUE]
+                               /\ SpliceRef(a, 0 - Huge, c, t) = [ok |-> FALSE, s |-> a, def |-> TRUE]
+    /\ \A i \in Idx :
+          /\ SubRef(a, i, Huge) = SubRef(a, i, MaxLenA + 1)
+          /\ SubRef(a, i, Huge).ok <=> (Norm(Len(a), i) \in 0 .. (Len(a) - 1))
+          /\ SubRef(a, i, Huge).ok => SubRef(a, i, Huge).s = SubSeq(a, Norm(Len(a), i) + 1, Len(a))
+          /\ ~SubRef(a, i, 0 - Huge).ok
+          /\ \A t \in Texts : /\ ~SpliceRef(a, i, Huge, t).ok /\ SpliceRef(a, i, Huge, t).def
+                               /\ ~SpliceRef(a, i, 0 - Huge, t).ok /\ SpliceRef(a, i, 0 - Huge, t).def
+    /\ \A t \in Texts \cup {b} : NCmpRef(a, t, Huge) = CmpRef(a, t)
 \* I: trim leaves no white space at either end and is idempotent; reverse is an involution; clear keeps the length
 ShapeLaw ==
     /\ LET t == TrimRef(a) IN
